@@ -287,7 +287,19 @@ impl<'a> Gen<'a> {
                         .cloned()
                         .collect();
                     let name = format!("absent{}.bin", self.r.below(3));
-                    if dirs.is_empty() || self.r.chance(1, 3) {
+                    // an absent name that differs from a present file's in letter case only
+                    let flip = |s: &str| -> String { s.chars().map(|c| if c.is_ascii_lowercase() { c.to_ascii_uppercase() } else { c.to_ascii_lowercase() }).collect() };
+                    let cased: Vec<String> = keys
+                        .iter()
+                        .map(|k| match k.rfind('/') {
+                            Some(p) => format!("{}/{}", &k[..p], flip(&k[p + 1..])),
+                            None => flip(k),
+                        })
+                        .filter(|c| !self.model.files.contains_key(c) && !self.model.dirs.contains(c))
+                        .collect();
+                    if !cased.is_empty() && self.r.chance(1, 2) {
+                        self.r.pick(&cased).clone()
+                    } else if dirs.is_empty() || self.r.chance(1, 3) {
                         name
                     } else {
                         format!("{}/{}", self.r.pick(&dirs), name)
@@ -431,7 +443,9 @@ pub fn generate(seed: u64, tier: Tier) -> Doc {
         let chunk = if r.chance(2, 3) { 0 } else { r.range(1, 9) as u16 };
         // data file numbers are 0..7 in retail archives, but the command carries 32 bits
         let file = if r.chance(1, 6) { r.range(8, 40) as u32 } else { r.below(8) as u32 };
-        targets.push((*r.pick(&CATS), (exp << 8) | chunk, file));
+        // the category field has 16 bits; one target in sixteen uses an id above 0xff
+        let main = if r.chance(1, 16) { r.range(0x100, 0xFFFF) as u16 } else { *r.pick(&CATS) };
+        targets.push((main, (exp << 8) | chunk, file));
     }
     // pre-existing tree
     let mut pre: Vec<FileEnt> = vec![];
